@@ -4,6 +4,8 @@ Algebra of update-by-identity over the nested `Node` type (mutual structural ind
 `Node` / `List Node`), lifted to `Layer` and `Doc`. Used by C04 (frame) and C19 (composition).
 -/
 namespace Nima
+-- name tokens are compared by spelling in this file (see `NameCmp` in Model/Edit.lean)
+attribute [local instance] NameCmp.spelled
 
 open Node
 
